@@ -989,7 +989,11 @@ impl<'a, 'b, W: Write> Serializer for &'a mut YamlSerializer<'b, W> {
                 if self.prefer_block_scalars {
                     // If it's already multiline and long, emit literal block style for readability.
                     let char_len = v.chars().count();
-                    if char_len > self.folded_wrap_col {
+                    // A literal block cannot carry CR / NUL / other controls, nor a content of line
+                    // breaks only.
+                    let block_ok = !v.chars().any(|c| c.is_control() && c != '\n' && c != '\t')
+                        && !v.trim_end_matches('\n').is_empty();
+                    if char_len > self.folded_wrap_col && block_ok {
                         self.pending_str_style = Some(StrStyle::Literal);
                         self.pending_str_from_auto = true;
                     } else {
@@ -1057,7 +1061,11 @@ impl<'a, 'b, W: Write> Serializer for &'a mut YamlSerializer<'b, W> {
             let needs_indicator = first_line_spaces > 0;
 
             // If N > 9, YAML parsers reject it. Fall back to quoting.
-            if needs_indicator && indent_n > 9 {
+            // The indicator is counted from the parent node: only write it where the parent is at
+            // column 0 (or the root); elsewhere, and for a body that would not be deeper than an
+            // inline `- - `, quote.
+            let shallow_inline_seq = self.indent_step < 2 && !was_map_value && base > 0;
+            if (needs_indicator && (indent_n > 9 || base > 0)) || shallow_inline_seq {
                 // Reset state and fall through to quoted string handling
                 self.pending_str_style = None;
                 self.pending_str_from_auto = false;
